@@ -126,6 +126,8 @@ def g_split(draw):
     # the per-block statistics may have been written to HDF5 and read back with load() into a container that used to
     # have the same or another shape (a reused / placeholder container)
     c["reload"] = gen.choice(draw, ["no", "no", "same_shape", "other_shape"])
+    # the blocks may be Dask arrays: acc_stats then returns statistics whose fields are still lazy
+    c["lazy_parts"] = gen.choice(draw, [False, False, False, True])
     return c
 
 
@@ -149,7 +151,15 @@ def c_split(ctx, case):
              "blocks>=2" if len(blocks) >= 2 else "blocks=1",
              "nonconsecutive" if list(case["perm"]) != sorted(case["perm"]) else "consecutive",
              ("+= from " + case.get("from_empty", "no")) if case["inplace"] else "+")
-    parts = [g.acc_stats(X[b]) for b in blocks]
+    lazy = bool(case.get("lazy_parts")) and case.get("reload", "no") == "no"
+    if lazy:
+        import dask.array as da
+
+        parts = [g.acc_stats(da.from_array(np.ascontiguousarray(X[b]), chunks=(max(1, (len(b) + 1) // 2), -1))) for b in blocks]
+        case = dict(case, from_empty="no")  # an in-memory accumulator cannot take lazy operands in place (NotImplementedError)
+        ctx.event("blocks are Dask arrays (lazy statistics)")
+    else:
+        parts = [g.acc_stats(X[b]) for b in blocks]
     if case.get("reload", "no") != "no":
         import os
         import tempfile
@@ -203,7 +213,12 @@ def c_split(ctx, case):
     _cmp_stats(ctx, _sd(acc), want, X, "sum of blocks", rtol=1e-10)
     # operands untouched ('+' both, '+=' the right-hand sides; the left one is a private copy)
     for s, snap in zip(parts, snaps):
-        if not (s == snap and s.t == snap.t):
+        if lazy:
+            same = s.t == snap.t and all(np.array_equal(np.asarray(getattr(s, f)), np.asarray(getattr(snap, f)))
+                                         for f in ("n", "sum_px", "sum_pxx"))
+        else:
+            same = s == snap and s.t == snap.t
+        if not same:
             ctx.fail("addition mutated an operand", "operand-mutated")
 
 
